@@ -27,7 +27,7 @@ TRUSTED_BASE = [
     "Coq 8.16.1 kernel + vm_compute (case evaluation); no native_compute",
     "axioms: none (Print Assumptions: Closed under the global context for every C03 theorem)",
     "tools/py2v.py fragment translator and tools/sitegen/reduce.py (statement ranges of SparseArray.reduce, "
-    "the masked-assignment rewriting rule data[m] = f(data[m]) -> if m: data = f(data), 43 source pins); "
+    "the masked-assignment rewriting rule data[m] = f(data[m], e[m]) -> if m: data = f(data, e), 44 source pins); "
     "Lib/PyReduce.v as the meaning of NumPy ufuncs on Python ints",
     "Spec/NpReduce.v as a description of numpy ufunc.reduce (cross-checked against NumPy on every generated case)",
     "Model/Reduce.v hand transcription of COO._reduce_calc/_reduce_return, _calc_counts_invidx, reduceat, "
@@ -371,7 +371,7 @@ SPELLINGS = {True: ["method", "func", "ufunc", "npfunc", "reduce"], False: ["ufu
 
 def api_cases(tier, rng):
     cases = []
-    rounds = 4 if tier == "quick" else 14
+    rounds = 4 if tier == "quick" else 40
     ufs = list(UF)
     k = 0
     for ndim in range(0, 5):
@@ -442,7 +442,7 @@ def api_cases(tier, rng):
 
 def kernel_cases(tier, rng):
     cases = []
-    n = 150 if tier == "quick" else 1500
+    n = 150 if tier == "quick" else 4000
     for _ in range(n):
         gd = rng.choice(["int64", "int64", "int8", "uint8", "int16", "uint8"])
         L = rng.choice([0, 1, 2, 3, 5, 8, 13]) if gd in ("int64", "int16") else rng.choice([0, 1, 5, 126, 127, 128, 129, 200, 254, 255, 256, 257, 300])
@@ -457,7 +457,7 @@ def kernel_cases(tier, rng):
 
 def diff_cases(tier, rng):
     cases = []
-    n = 1 if tier == "quick" else 4
+    n = 1 if tier == "quick" else 8
     for ndim in range(0, 4):
         for axis in axis_args(ndim, rng, tier):
             for kd in (False, True):
@@ -528,6 +528,33 @@ def replay_line(c):
             f"except Exception as e: print('sparse raised', type(e).__name__, e)\n"
             f"try: print('numpy :', np.{c['uf']}.reduce(d,axis={ax!r},keepdims={c['keepdims']}))\n"
             f"except Exception as e: print('numpy raised', type(e).__name__, e)")
+
+
+def diff_replay_line(c, name):
+    sp = c["spec"]
+    ax = _axis_py(c["axis"])
+    fill = c.get("fillv", sp["fill"])
+    mk = (f"import numpy as np, sparse; d=np.full({tuple(sp['shape'])!r},float('{fill}'),dtype='float64'); "
+          + "".join(f"d[{tuple(p)!r}]={v}; " for p, v in zip(sp["coords"][:60], sp["data"][:60], strict=True))
+          + "".join(f"d[{tuple(p)!r}]=np.nan; " for p in c.get("nanpos", []))
+          + f"x=sparse.COO.from_numpy(d,fill_value=float('{fill}')); ")
+    if c["kind"] in ("mean", "var", "std", "dtype"):
+        dt = c.get("in_dtype", "int64")
+        mk += f"d=d.astype('{dt}'); x=sparse.COO.from_numpy(d,fill_value=d.dtype.type({sp['fill']})); "
+    if sp["format"] == "gcxs":
+        mk += "x=sparse.GCXS.from_coo(x); "
+    kw = f"axis={ax!r},keepdims={c['keepdims']}"
+    if c["kind"] in ("mean", "var", "std"):
+        kw2 = kw + (f",ddof={c['ddof']}" if c.get("ddof") else "")
+        call, ref = f"x.{c['kind']}({kw2})", f"np.{c['kind']}(d,{kw2})"
+    elif c["kind"] == "nan":
+        call, ref = f"sparse.{c['fn']}(x,{kw})", f"np.{c['fn']}(d,{kw})"
+    else:
+        kw2 = kw + (f",dtype='{c['req']}'" if c.get("req") else "")
+        call, ref = f"np.{c['uf']}.reduce(x,{kw2})", f"np.{c['uf']}.reduce(d,{kw2})"
+    return (mk + f"\ntry: r={call}; print('sparse:', r.todense() if hasattr(r,'todense') else r)\n"
+            f"except Exception as e: print('sparse raised', type(e).__name__, e)\n"
+            f"try: print('numpy :', {ref})\nexcept Exception as e: print('numpy raised', type(e).__name__, e)")
 
 
 # ------------------------------------------------------------------ campaign
@@ -614,11 +641,10 @@ def campaign(build, tier, seed, report, budget=1):
             f"{'in_domain' if cl == 0 else 'outside:' + CLAUSE.get(cl, str(cl))}")
     for i, code in bad:
         c, r = cases[i], res[i]
-        kind = {1: "representation", 7: "representation", 9: "representation", 10: "representation"}.get(code, "value")
+        kind = {1: "representation", 9: "representation", 10: "representation"}.get(code, "value")
         what = {1: "implementation agrees with the Spec but not with the model's representation",
                 2: "implementation differs from NumPy semantics inside the proved domain",
                 6: "result is not in canonical / pruned form",
-                7: "model differs from the Spec inside the proved domain (contradicts reduce_den)",
                 8: "inadmissible reduction did not raise ValueError",
                 9: "malformed input literal (generator / constructor)",
                 10: "Spec/NpReduce.v differs from NumPy"}.get(code, "implementation differs from NumPy semantics (outside the proved domain)")
@@ -671,7 +697,7 @@ def campaign(build, tier, seed, report, budget=1):
             viol.append({"property": "C03", "op": "reduce_differential", "function": name, "kind": "value",
                          "clause": gcxs_clause(c["spec"], c["axis"]),
                          "format": c["spec"]["format"], "what": "; ".join(badl)[:400], "case": c, "impl": badl,
-                         "replay_py": f"# differential case {name} axis={ax!r} keepdims={c['keepdims']} spec={json.dumps(c['spec'])}"})
+                         "replay_py": diff_replay_line(c, name)})
 
     distinct = len({json.dumps([c["spec"]["shape"], c["spec"]["coords"], c["spec"]["data"], c["spec"]["fill"], c["spec"]["format"],
                                 c["spec"].get("caxes"), c["uf"], c["axis"], c["keepdims"], c.get("idx_dtype")]) for c in cases
